@@ -35,6 +35,19 @@ pub struct Profile {
     pub burst: bool,         // long allocation bursts (pacing workloads)
 }
 
+thread_local! {
+    /// hit counts of (op class, phase, parent colour, child colour) cells, shared by all scripts of a run
+    pub static CELLS: std::cell::RefCell<std::collections::HashMap<(u8, u8, u8, u8), u32>> = std::cell::RefCell::new(std::collections::HashMap::new());
+}
+
+pub fn cells_report() -> Vec<String> {
+    let names = ["store", "storew", "rawstore", "rawstorew", "barb", "barbw", "barf", "barfw", "stash", "barb-", "barf-", "barfw-", "upgrade", "resurrect"];
+    let cols = ["W", "w", "G", "B", "-"];
+    let mut v: Vec<String> = CELLS.with(|c| c.borrow().iter().map(|((o, p, a, b), n)| format!("{}:ph{}:{}:{}={}", names[*o as usize], p, cols[*a as usize], cols[*b as usize], n)).collect());
+    v.sort();
+    v
+}
+
 pub struct Gen {
     pub rng: Rng,
     pub prof: Profile,
@@ -44,13 +57,15 @@ pub struct Gen {
     paced: [bool; NARENAS],
     closing: bool,
     queued: Option<Op>,
+    /// pending template ops (inside a callback)
+    tpl: std::collections::VecDeque<Op>,
 }
 
 const DYADIC: &[(i64, i64)] = &[(0, 1), (1, 64), (1, 16), (1, 8), (1, 4), (3, 8), (1, 2), (5, 8), (3, 4), (7, 8), (1, 1), (3, 2), (2, 1)];
 
 impl Gen {
     pub fn new(seed: u64, prof: Profile) -> Gen {
-        Gen { rng: Rng(seed), prof, emitted: 0, cb_left: 0, cb_kind: None, paced: [false; NARENAS], closing: false, queued: None }
+        Gen { rng: Rng(seed), prof, emitted: 0, cb_left: 0, cb_kind: None, paced: [false; NARENAS], closing: false, queued: None, tpl: std::collections::VecDeque::new() }
     }
 
     fn pacing(&mut self) -> PacingSpec {
@@ -165,7 +180,102 @@ impl Gen {
         }
     }
 
+    /// State-directed choice: among all adoption / barrier ops applicable to the current registers,
+    /// take one whose (op, phase, parent colour, child colour) cell has been hit least.
+    fn directed(&mut self, v: &View, kind: CbKind) -> Option<Op> {
+        let ph = v.cb_phase;
+        let mut cands: Vec<((u8, u8, u8, u8), Op)> = Vec::new();
+        let col = |x: Option<(u8, bool)>| x.map(|c| c.0).unwrap_or(4);
+        let free_h: Vec<u8> = (0..NHANDLES as u8).filter(|h| v.handles[*h as usize].is_none()).collect();
+        for p in 0..NREGS as u8 {
+            let Some((_, pk)) = v.regs[p as usize] else { continue };
+            let pc = col(v.reg_col[p as usize]);
+            cands.push(((9, ph, pc, 4), Op::M(MOp::BarB(p, None))));
+            for c in 0..NREGS as u8 {
+                let Some((_, ck)) = v.regs[c as usize] else { continue };
+                let cc = col(v.reg_col[c as usize]);
+                let slot = self.rng.below(3) as u8;
+                if pk != Kind::Set { cands.push(((0, ph, pc, cc), Op::M(MOp::Store(p, slot, Some(c))))); }
+                if pk == Kind::Node { cands.push(((2, ph, pc, cc), Op::M(MOp::RawStore(p, slot, c)))); }
+                if pk != Kind::Set && ck != Kind::Set {
+                    cands.push(((4, ph, pc, cc), Op::M(MOp::BarB(p, Some(c)))));
+                    cands.push(((6, ph, pc, cc), Op::M(MOp::BarF(Some(p), c))));
+                }
+                if pk == Kind::Set && ck != Kind::Set && !free_h.is_empty() {
+                    cands.push(((8, ph, pc, cc), Op::M(MOp::Stash(free_h[0], p, c))));
+                }
+            }
+            for w in 0..NREGS as u8 {
+                if v.wregs[w as usize].is_none() { continue; }
+                let wc = col(v.wreg_col[w as usize]);
+                let slot = self.rng.below(3) as u8;
+                if pk == Kind::Node || pk == Kind::Struct { cands.push(((1, ph, pc, wc), Op::M(MOp::StoreW(p, slot, Some(w))))); }
+                if pk == Kind::Node { cands.push(((3, ph, pc, wc), Op::M(MOp::RawStoreW(p, slot, w)))); }
+                if pk != Kind::Set {
+                    cands.push(((5, ph, pc, wc), Op::M(MOp::BarBW(p, w))));
+                    cands.push(((7, ph, pc, wc), Op::M(MOp::BarFW(Some(p), w))));
+                }
+            }
+        }
+        for c in 0..NREGS as u8 {
+            if let Some((_, ck)) = v.regs[c as usize] {
+                if ck != Kind::Set { cands.push(((10, ph, 4, col(v.reg_col[c as usize])), Op::M(MOp::BarF(None, c)))); }
+                if matches!(kind, CbKind::Finalize(_)) && ck != Kind::Set {
+                    cands.push(((13, ph, 4, col(v.reg_col[c as usize])), Op::M(MOp::Resurrect(c))));
+                }
+            }
+        }
+        for w in 0..NREGS as u8 {
+            if v.wregs[w as usize].is_some() {
+                let wc = col(v.wreg_col[w as usize]);
+                cands.push(((11, ph, 4, wc), Op::M(MOp::BarFW(None, w))));
+                cands.push(((12, ph, 4, wc), Op::M(MOp::Upgrade(self.rng.below(NREGS as u64) as u8, w))));
+                if matches!(kind, CbKind::Finalize(_)) {
+                    cands.push(((13, ph, 4, wc), Op::M(MOp::ResurrectW(self.rng.below(NREGS as u64) as u8, w))));
+                }
+            }
+        }
+        if cands.is_empty() { return None; }
+        let best = CELLS.with(|cl| {
+            let cl = cl.borrow();
+            // least-hit cell first; among equals prefer the rarely reachable colour combinations
+            // (weakly marked child, black or gray parent)
+            let score = |k: &(u8, u8, u8, u8)| -> i64 {
+                let n = cl.get(k).copied().unwrap_or(0) as i64;
+                let rare = (if k.3 == 1 { 4 } else { 0 }) + (if k.2 == 3 { 2 } else { 0 }) + (if k.2 == 2 || k.3 == 2 { 1 } else { 0 }) + (if k.2 == 1 { 3 } else { 0 });
+                n * 8 - rare
+            };
+            let min = cands.iter().map(|(k, _)| score(k)).min().unwrap();
+            let pool: Vec<usize> = cands.iter().enumerate().filter(|(_, (k, _))| score(k) == min).map(|(i, _)| i).collect();
+            pool
+        });
+        let i = best[self.rng.below(best.len() as u64) as usize];
+        let (k, op) = cands[i];
+        CELLS.with(|cl| *cl.borrow_mut().entry(k).or_insert(0) += 1);
+        Some(op)
+    }
+
     fn micro(&mut self, v: &View, kind: CbKind) -> Op {
+        // while a collection cycle is in progress, half of the ops are chosen by coverage
+        if v.cb_phase != 0 && self.rng.chance(1, 2) {
+            // make sure weak pointers and their upgrades are around to choose from
+            let have_w = v.wregs.iter().any(|x| x.is_some());
+            if !have_w && self.rng.chance(1, 2) {
+                let r = &mut self.rng;
+                let full: Vec<u8> = (0..NREGS as u8).filter(|i| v.regs[*i as usize].is_some()).collect();
+                return if full.is_empty() || r.chance(1, 2) { Op::M(MOp::LoadRootW(r.below(NREGS as u64) as u8, r.below(NROOT as u64) as u8)) }
+                       else { Op::M(MOp::LoadW(r.below(NREGS as u64) as u8, r.pick(&full), r.below(3) as u8)) };
+            }
+            // a weakly marked object in hand but no fully traced holder to adopt it: fetch one
+            let has_w = v.reg_col.iter().any(|c| matches!(c, Some((1, _))));
+            let has_b = v.reg_col.iter().any(|c| matches!(c, Some((3, true))));
+            if has_w && !has_b && self.rng.chance(2, 3) {
+                let r = &mut self.rng;
+                let tgt: Vec<u8> = (0..NREGS as u8).filter(|i| !matches!(v.reg_col[*i as usize], Some((1, _)))).collect();
+                return Op::M(MOp::LoadRoot(r.pick(&tgt), r.below(NROOT as u64) as u8));
+            }
+            if let Some(op) = self.directed(v, kind) { return op; }
+        }
         let r = &mut self.rng;
         let full: Vec<u8> = (0..NREGS as u8).filter(|i| v.regs[*i as usize].is_some()).collect();
         let wfull: Vec<u8> = (0..NREGS as u8).filter(|i| v.wregs[*i as usize].is_some()).collect();
@@ -268,11 +378,47 @@ impl OpSource for Gen {
                 let over = self.emitted >= self.prof.len;
                 if self.cb_left == 0 || over || !entered {
                     self.cb_kind = None;
+                    self.tpl.clear();
                     if self.prof.faults && self.rng.chance(1, 30) { return Some(Op::Panic); }
                     if matches!(kind, CbKind::TryNew | CbKind::TryMapRoot) && self.rng.chance(1, 5) { return Some(Op::EndErr); }
                     return Some(Op::End);
                 }
                 self.cb_left -= 1;
+                if let Some(t) = self.tpl.pop_front() { return Some(t); }
+                // fully marked arena: reachable holders are black, weak-only targets are weakly marked;
+                // bring one of each into registers and let the coverage-directed choice combine them
+                let marked = v.snaps.get(a as usize).and_then(|s| s.as_ref())
+                    .map(|s| s.phase == 1 && s.gray.is_empty() && s.gray_again.is_empty() && !s.root_needs_trace).unwrap_or(false);
+                if marked && self.rng.chance(1, 3) {
+                    let r = &mut self.rng;
+                    let (r0, r1, w0) = (r.below(2) as u8, 2 + r.below(2) as u8, r.below(NREGS as u64) as u8);
+                    let slot = r.below(NROOT as u64) as u8;
+                    if r.chance(1, 2) {
+                        self.tpl.push_back(Op::M(MOp::LoadW(w0, r0, r.below(2) as u8)));
+                    } else {
+                        self.tpl.push_back(Op::M(MOp::LoadRootW(w0, r.below(NROOT as u64) as u8)));
+                    }
+                    self.tpl.push_back(Op::M(MOp::Upgrade(r1, w0)));
+                    self.cb_left += 4;
+                    return Some(Op::M(MOp::LoadRoot(r0, slot)));
+                }
+                // templates that build the rarely reached shapes: objects that are only weakly
+                // referenced from reachable holders (they become WhiteWeak during the next marking)
+                if v.cb_phase == 0 && !matches!(kind, CbKind::Finalize(_)) && self.rng.chance(1, 6) {
+                    let r = &mut self.rng;
+                    let (rp, rx, w) = (r.below(2) as u8, 2 + r.below(2) as u8, r.below(NREGS as u64) as u8);
+                    let k = r.pick(&[Kind::Node, Kind::Node, Kind::Struct, Kind::Leaf, Kind::Lock]);
+                    self.tpl.push_back(Op::M(MOp::Alloc(rx, k, 2, 1)));
+                    self.tpl.push_back(Op::M(MOp::Downgrade(w, rx)));
+                    if kind == CbKind::MutRoot && r.chance(1, 2) {
+                        self.tpl.push_back(Op::M(MOp::RootSetW(r.below(NROOT as u64) as u8, Some(w))));
+                    } else {
+                        self.tpl.push_back(Op::M(MOp::StoreW(rp, r.below(2) as u8, Some(w))));
+                    }
+                    self.tpl.push_back(Op::M(MOp::Clear(rx)));
+                    self.cb_left += 4;
+                    return Some(Op::M(MOp::LoadRoot(rp, r.below(NROOT as u64) as u8)));
+                }
                 // occasionally poke metrics from inside the callback
                 if self.rng.chance(1, 60) { return Some(Op::Adjust(a, Rat(1, 2))); }
                 if !v.handles.iter().all(|h| h.is_none()) && self.rng.chance(1, 50) { return Some(self.handle_op(v)); }
